@@ -13,6 +13,7 @@ from quara.objects.qoperations import SetQOperations
 from quara.protocol.qtomography.standard.standard_qtomography import StandardQTomography
 from quara.protocol.qtomography.standard.standard_qpt import calc_c_qpt
 from quara.qcircuit.experiment import Experiment
+from quara.utils import matrix_util
 from quara.utils.number_util import to_stream
 
 
@@ -129,6 +130,31 @@ class StandardQmpt(StandardQTomography):
         num_outcomes_povm = len(self._experiment._povms[povm_index].vecs)
         num_outcomes_mprocess = self._num_outcomes
         return num_outcomes_povm * num_outcomes_mprocess
+
+    def _generate_matS(self) -> np.ndarray:
+        # the first row of the last HS is implied by the variables:
+        # (1, 0, ..., 0) - (sum of the first rows of the other HSs).
+        # matS maps the variables to the sum of those first rows.
+        size = self._experiment.states[0].dim ** 2
+        first_row = np.hstack(
+            [np.eye(size, dtype=np.float64), np.zeros((size, size * (size - 1)))]
+        )
+        blocks = [first_row for _ in range(self._num_outcomes - 1)]
+        blocks.append(np.zeros((size, size * (size - 1)), dtype=np.float64))
+        return np.hstack(blocks)
+
+    def _calc_mse_linear_analytical_mode_qoperation(
+        self, qope: "QOperation", data_num_list: List[int]
+    ) -> np.float64:
+        val = self._calc_mse_linear_analytical_mode_var(qope, data_num_list)
+        if qope.on_para_eq_constraint:
+            # adds the error of the implied first row, Tr[S V(v^{L}) S^T]
+            matS = self._generate_matS()
+            ScovST = matrix_util.calc_conjugate(
+                matS, self.calc_covariance_linear_mat_total(qope, data_num_list)
+            )
+            val = val + np.trace(ScovST)
+        return val
 
     def estimation_object_type(self) -> type:
         return MProcess
